@@ -51,6 +51,7 @@ type Op struct {
 	Hi   string
 	// lock options
 	NoWait     bool
+	NoRetry    bool // do not retry the lock call after a write conflict
 	CheckExist bool
 	OnlyExist  bool
 }
@@ -355,7 +356,7 @@ func (c *Client) runTxn(h *History, idx int, p Program, rec *TxnRec) bool {
 				}
 				lctx.LockOnlyIfExists = op.OnlyExist
 				err = txn.LockKeys(ctx, lctx, ks...)
-				if err != nil && tikverr.IsErrWriteConflict(err) && p.Mode.Pessimistic {
+				if err != nil && tikverr.IsErrWriteConflict(err) && p.Mode.Pessimistic && !op.NoRetry {
 					rec.OpErrs = append(rec.OpErrs, "lock:write-conflict-retry")
 					// a failed lock call drops the presume-not-exists mark of its keys; the retried
 					// statement declares its inserts again (as TiDB re-executes the statement)
